@@ -426,7 +426,7 @@ func oracleC04(w *polWorld, s *sut.SUT) {
 func shapePol(ci any) string {
 	c := ci.(*polCase)
 	var sb strings.Builder
-	fmt.Fprintf(&sb, "%s/a%v/d%d/l%s/t%d/u%s/m%v/pac%d/ct%d/cr%d/fp%d", c.Prop, c.AuthUser != "", len(c.Deny), c.Localhost, len(c.TimeFrame), strings.SplitN(c.Upstream, ":", 2)[0], c.MITM, len(c.PAC), len(c.ConnectTo), len(c.Creds), c.FlakyProxy)
+	fmt.Fprintf(&sb, "%s/a%v/d%d/l%s/t%d/u%s/m%v/pac%d/ct%d/cr%d/fp%d/tl%v", c.Prop, c.AuthUser != "", len(c.Deny), c.Localhost, len(c.TimeFrame), strings.SplitN(c.Upstream, ":", 2)[0], c.MITM, len(c.PAC), len(c.ConnectTo), len(c.Creds), c.FlakyProxy, c.TLSListener)
 	for _, cn := range c.Conns {
 		sb.WriteString("|")
 		if cn.MITMHost != "" {
